@@ -268,6 +268,59 @@ def w_uf_real(cfg, tier):
     return col.result()
 
 
+def w_real_reuse(cfg, tier):
+    """cfg = 'real-reuse <decoder> <code>': ONE real decoder object (real engines) decodes the syndromes of
+    two solver-chosen (realised) single-qubit errors one after the other; the second correction must
+    reproduce the second syndrome.  Guards the engine stubs' contracts against the real engines."""
+    import panqec.decoders as pd_
+    from panqec.error_models import PauliErrorModel
+    parts = cfg.split(' ')
+    Dec = getattr(pd_, {'bposd': 'BeliefPropagationOSDDecoder', 'matching': 'MatchingDecoder',
+                        'unionfind': 'UnionFindDecoder', 'mbp': 'MemoryBeliefPropagationDecoder'}[parts[1]])
+    code = common.make_code(parts[2])
+    n = code.n
+    col = hz.Collector(cfg)
+    col.encoded(Dec.decode)
+    em = PauliErrorModel(0.2, 0.3, 0.5)
+    eng = Engine(name=cfg, max_paths=20000)
+    with eng:
+        q1, q2 = eng.integer('q1', 0, n - 1), eng.integer('q2', 0, n - 1)
+        l1, l2 = eng.integer('l1', 1, 3), eng.integer('l2', 0, 3)       # l2 = 0: the zero syndrome second
+
+        def fn():
+            def err(q, l):
+                e = np.zeros(2 * n, dtype=np.uint8)
+                if l & 1:
+                    e[q] = 1
+                if l & 2:
+                    e[n + q] = 1
+                return e
+            e1, e2 = err(int(q1), int(l1)), err(int(q2), int(l2))
+            dec = Dec(code, em, 0.1)
+            dec.decode(code.measure_syndrome(e1))
+            s2 = code.measure_syndrome(e2)
+            c = np.asarray(dec.decode(s2)).astype(np.uint8)
+            ok = c.shape == (2 * n,) and not code.measure_syndrome((e2 + c) % 2).any() and (s2.any() or not c.any())
+            return e1.tolist(), e2.tolist(), bool(ok)
+        ps = eng.explore(fn)
+    col.absorb(eng)
+    bad = []
+    w = [None]
+    for p in ps:
+        if p.exc is not None:
+            bad.append(z3_and(p.pc))
+            w[0] = w[0] or dict(exception=f'{type(p.exc).__name__}: {p.exc}')
+            continue
+        e1, e2, ok = p.value
+        bad.append(z3_and(p.pc + [z3.BoolVal(not ok)]))
+        if not ok and w[0] is None:
+            w[0] = dict(first=e1, error=e2, reuse=parts[1])
+    col.prove(f'C05/real-reuse/{parts[1]}/second-correction-reproduces-its-syndrome', eng.base, z3_or(bad), lambda m: w[0],
+              f'{len(ps)} realised ordered pairs of single-qubit errors (incl. the zero syndrome second), one reused real '
+              f'{Dec.__name__}')
+    return col.result()
+
+
 def w_sweepmatch(cfg, tier):
     """Composition only: Z part from the sweeper, X part from the matcher, sum mod 2."""
     mods = _install()
@@ -358,7 +411,7 @@ def w_constructible(cfg, tier):
 
 
 def worker(cfg, tier='quick'):
-    return {'matching': w_matching, 'bposd': w_bposd, 'unionfind': w_unionfind, 'sweepmatch': w_sweepmatch, 'uf-real': w_uf_real,
+    return {'matching': w_matching, 'bposd': w_bposd, 'unionfind': w_unionfind, 'sweepmatch': w_sweepmatch, 'uf-real': w_uf_real, 'real-reuse': w_real_reuse,
             'constructible': w_constructible}[cfg.split()[0]](cfg, tier)
 
 
@@ -378,6 +431,19 @@ def replay(path):
                 dec = DECODERS[w['decoder']](code, PauliErrorModel(0.2, 0.3, 0.5), 0.1)
                 c0 = np.asarray(dec.decode(np.zeros(code.n_stabilizers, dtype=np.uint8)))
                 bad = c0.shape != (2 * code.n,) or bool(c0.any())
+        elif w.get('reuse'):
+            import panqec.decoders as pd_
+            from panqec.error_models import PauliErrorModel
+            parts = cfg.split(' ')
+            Dec = getattr(pd_, {'bposd': 'BeliefPropagationOSDDecoder', 'matching': 'MatchingDecoder',
+                                'unionfind': 'UnionFindDecoder', 'mbp': 'MemoryBeliefPropagationDecoder'}[parts[1]])
+            code = common.make_code(parts[2])
+            dec = Dec(code, PauliErrorModel(0.2, 0.3, 0.5), 0.1)
+            e1, e2 = np.array(w['first'], dtype=np.uint8), np.array(w['error'], dtype=np.uint8)
+            dec.decode(code.measure_syndrome(e1))
+            c = np.asarray(dec.decode(code.measure_syndrome(e2))).astype(np.uint8)
+            bad = bool(code.measure_syndrome((e2 + c) % 2).any()) or (not e2.any() and bool(c.any()))
+            print('first', e1.tolist(), 'second', e2.tolist(), 'correction', c.tolist())
         elif 'error' in w and cfg.split()[0] in ('matching', 'bposd', 'unionfind', 'uf-real'):
             # run the REAL decoder (real PyMatching / ldpc / union-find) on the counterexample error
             from panqec.error_models import PauliErrorModel
@@ -447,6 +513,8 @@ def configs(tier):
     out += [f'bposd {c} noupdate' for c in bp]
     out += ['bposd RotatedPlanar2DCode(2,2) update', 'bposd Planar2DCode(2,2) update']
     out += ['unionfind Toric2DCode(2,2)', 'unionfind Toric2DCode(2,3)'] + (['unionfind Toric2DCode(3,4)'] if tier != 'quick' else [])
+    out += ['real-reuse bposd Toric2DCode(2,2)', 'real-reuse bposd RotatedPlanar2DCode(2,2)/XZZX/x', 'real-reuse matching Toric2DCode(2,2)',
+            'real-reuse unionfind Toric2DCode(3,3)']
     out += ['uf-real Toric2DCode(2,2)', 'uf-real Toric2DCode(2,3)', 'uf-real Toric2DCode(3,3)'] + \
         (['uf-real Toric2DCode(3,4)', 'uf-real Toric2DCode(4,4)'] if tier != 'quick' else [])
     out += ['sweepmatch Toric3DCode(2,2,2)', 'sweepmatch Planar3DCode(2,2,2)', 'sweepmatch RotatedPlanar3DCode(2,2,2)',
